@@ -39,6 +39,7 @@ func checkC15(c *Ctx, r *Report) {
 	everyEnvelopeDelivered(c, r, "C15.R1.every-envelope-delivered")
 	borrow(c, r, c11R1, "C11.R1.verify-guards", "C15.R3.time-window", 1, "tsigVerify accepts an envelope only inside the two-sided fudge window around its time signed", func(k string) bool { return strings.Contains(k, "Fudge") }, "a valid signed transfer from a primary whose clock is ahead is refused at the first envelope (or one outside the window is accepted)")
 	borrowClause(c, r, c01R1, "C01.R1.unpack-seq", "C15.R1.records-decode", 70, "the unpack method of every record type reads its fields as the layout says", nil, func(d string) bool { return true }, "a zone holding such a record cannot be transferred: its envelope fails to decode")
+	round12(c, r, "C15")
 }
 
 // backEdges: edges u->h where h dominates u.
